@@ -23,9 +23,17 @@ META = dict(
          "engine.bindRoutes on a ResponseRecorder, on a loopback httptest.Server and on a started api.Server (http.Server settings of "
          "engine.withTimeout included), and through rpc.NewServer / rpc.setupInterceptors on loopback gRPC, and compare status, handler "
          "headers and handler bytes (gRPC code) with the allowed set. Scripts may also end in WriteHeader(0/99/1000), a panic raised "
-         "inside the response writer; a request without any response for 20 s is reported as a hung client with the goroutines "
+         "inside the response writer, or in a panic with an error value, a runtime error (nil map, index, nil dereference), "
+         "http.ErrAbortHandler bare or wrapped, a custom (error) type. The configuration has a `timeout` dimension: scenarios "
+         "without time-out guard are served by a second engine built with Config.Timeout = 0, and every admitted in-time scenario "
+         "is also served through handler.RecoverHandler alone (SubChains). A request without any response for 20 s is reported as a hung client with the goroutines "
          "inside the chain. RPC handlers that overrun may honour their context, ignore it for 1.5 s or never end: the answer must "
          "arrive at the deadline/cancel (client within 1 s of a 150 ms time-out; observer interceptor within 1 s of the cancel). "
+         "RPC scenarios carry the VALUE a panicking handler throws (string, error, wrapped error, nil-map / nil-pointer / index "
+         "runtime errors, custom type, status.Error(NotFound / DeadlineExceeded), a wrapped status error, custom errors with a "
+         "GRPCStatus() method answering AlreadyExists / OK) and the CHAIN (UnaryCrashInterceptor alone, around the interceptors of "
+         "setupInterceptors for Timeout > 0 and for Timeout = 0 - all called in-process, where the (resp, err) pair is observed - "
+         "a started server with Timeout > 0 and one with Timeout = 0): the caller always gets Internal. "
          "The panic clause is also stressed: 200k-2M concurrent panicking calls in-process through UnaryCrashInterceptor around the "
          "interceptors of the real setupInterceptors (a (nil, nil) result = panic swallowed), 6k-64k over the wire, 30k-300k concurrent "
          "panicking requests through the engine chain (all must be 500). A runtime fatal error / unrecovered panic / race report of "
@@ -35,7 +43,8 @@ META = dict(
     note="Trusted: TLC, net/http and grpc-go clients, the gated handler. Not covered: the stress trace validation of DESIGN 4/C02(c) "
          "(no vhook points in timeouthandler.go) - replaced by boundary scenarios (random sleeps around a 20 ms deadline, either "
          "outcome accepted, never a mix; -race in the thorough tier); client cancel (499 / Canceled) is observed on the recorder and "
-         "by a server-side observer interceptor only, not over a real HTTP connection; websocket upgrade bypass, TLS, streaming RPC, "
+         "by a server-side observer interceptor only, not over a real HTTP connection; websocket upgrade bypass, TLS, streaming RPC (StreamCrashInterceptor shares toPanicError with the unary one), panic(nil) "
+         "(go.mod says go 1.19: recover() returns nil), late RPC scenarios on the in-process chains, "
          "1xx/204/304 statuses, per-route time-outs longer than Config.Timeout on a started server; handlers that "
          "outlive their deadline keep running although their MaxConns token was returned (inherent to Go; `inside` counts unanswered "
          "requests). The breaker in the chain is kept from shedding with the mathx coin hook; scenarios share one engine with "
@@ -54,12 +63,13 @@ INV_TW = ["OneWriter", "UnderExpected", "BranchAgrees", "NoLeak", "NoRepanic"]
 
 
 def mc(ctx):
-    cfgs = "{[maxConns |-> 1, maxBytes |-> 4], [maxConns |-> 2, maxBytes |-> 4]}"
+    cfgs = ("{[maxConns |-> 1, maxBytes |-> 4, timeout |-> TRUE], [maxConns |-> 2, maxBytes |-> 4, timeout |-> TRUE], "
+            "[maxConns |-> 1, maxBytes |-> 4, timeout |-> FALSE]}")
     K = dict(Hdrs='{"h1"}', Codes="{201}", Chunks='{"a"}', Rids="{1,2}",
              Reqs="AllReqs({0,9},%d)" % (1 if ctx.quick else 2), Cfgs=cfgs)
     cfg = core.render_cfg(spec="Spec", constants=K, invariants=INV_SG, properties=["ResponseIsFinal"])
     ctx.tlc("ServerGuards", cfg, constants=K, name="ServerGuards-mc", workers=6, timeout=900)
-    K = dict(K, Reqs="AllReqs({0,9},1)", Rids="{1,2}" if ctx.quick else "{1,2,3}", Cfgs="{[maxConns |-> 1, maxBytes |-> 4]}")
+    K = dict(K, Reqs="AllReqs({0,9},1)", Rids="{1,2}" if ctx.quick else "{1,2,3}", Cfgs="{[maxConns |-> 1, maxBytes |-> 4, timeout |-> TRUE]}")
     if not ctx.quick:
         K["Reqs"] = '{Req(0,<<>>,"finish"), Req(9,<<>>,"finish"), Req(0,<<WriteStep("a")>>,"panic"), Req(0,<<HdrStep("h1")>>,"panic")}'
     cfg = core.render_cfg(spec="Spec", constants=K, invariants=["TypeOK"], properties=["EventuallyAnswered"])
@@ -74,11 +84,12 @@ def mc(ctx):
 
 
 def gen(ctx, name, mode, **kw):
+    """one generator run (tiny models, start-up dominated: 2 workers, several runs side by side - see gens())"""
     K = dict(Hdrs="{}", Codes="{}", Chunks="{}", Rids="{1}", Reqs='{Req(0,<<>>,"finish")}',
-             Cfgs="{[maxConns |-> 1, maxBytes |-> 16]}", Mode='"%s"' % mode, MaxOps=0)
+             Cfgs="{[maxConns |-> 1, maxBytes |-> 16, timeout |-> TRUE]}", Mode='"%s"' % mode, MaxOps=0)
     K.update(kw)
     cfg = core.render_cfg(spec="GSpec", constants=K, invariants=["Emit"])
-    r = ctx.tlc("ServerGuardsGen", cfg, constants=K, name=name, workers=6, timeout=1200)
+    r = ctx.tlc("ServerGuardsGen", cfg, constants=K, name=name, workers=2, timeout=1200)
     out, seen = [], set()
     for s in r.printed:
         if s not in seen:
@@ -87,30 +98,55 @@ def gen(ctx, name, mode, **kw):
     return out
 
 
+NT_CFG = "{[maxConns |-> 1, maxBytes |-> 16, timeout |-> FALSE]}"
+
+
+def gens(ctx, jobs):
+    """jobs: name -> (mode, kw); the generator runs of one stage, three at a time"""
+    from concurrent.futures import ThreadPoolExecutor
+    with ThreadPoolExecutor(max_workers=3) as pool:
+        futs = {n: pool.submit(gen, ctx, n, m, **kw) for n, (m, kw) in jobs.items()}
+        return {n: f.result() for n, f in futs.items()}
+
+
 def rest_cases(ctx):
     """script + boundary + probe + conns cases for the api driver (python objects)."""
     cases = []
+    jobs = {}
     if ctx.quick:
-        scr = gen(ctx, "gen-script", "script", Hdrs='{"h1","h2"}', Codes="{201,404}", Chunks='{"a","b","big"}', Reqs="AllReqs({0},2)")
+        jobs["gen-script"] = ("script", dict(Hdrs='{"h1","h2"}', Codes="{201,404}", Chunks='{"a","b","big"}', Reqs="AllReqs({0},2)"))
     else:
-        scr = gen(ctx, "gen-script", "script", Hdrs='{"h1","h2"}', Codes="{201,404}", Chunks='{"a","big"}', Reqs="AllReqs({0},3)")
-    scr = [json.loads(x) for x in scr]
+        jobs["gen-script"] = ("script", dict(Hdrs='{"h1","h2"}', Codes="{201,404}", Chunks='{"a","big"}', Reqs="AllReqs({0},3)"))
     # Content-Length classes against two MaxBytes settings
-    cl = gen(ctx, "gen-cl", "script", Hdrs='{"h1"}', Codes="{201}", Chunks='{"a"}',
-             Reqs='{Req(c, <<HdrStep("h1"), StatusStep(201), WriteStep("a")>>, t) : c \\in {0,15,16,17,63,64,65,300}, t \\in Terms}',
-             Cfgs="{[maxConns |-> 1, maxBytes |-> 16], [maxConns |-> 1, maxBytes |-> 64]}")
-    cl = [json.loads(x) for x in cl]
+    jobs["gen-cl"] = ("script", dict(Hdrs='{"h1"}', Codes="{201}", Chunks='{"a"}',
+                      Reqs='{Req(c, <<HdrStep("h1"), StatusStep(201), WriteStep("a")>>, t) : c \\in {0,15,16,17,63,64,65,300}, t \\in Terms}',
+                      Cfgs="{[maxConns |-> 1, maxBytes |-> 16, timeout |-> TRUE], [maxConns |-> 1, maxBytes |-> 64, timeout |-> TRUE]}"))
     # handlers that end in WriteHeader(invalid status code) - a panic raised inside the response writer - or in a panic
-    # with another kind of value (error, runtime error, http.ErrAbortHandler, custom type)
-    bad = gen(ctx, "gen-badcode", "script", Hdrs='{"h1"}', Codes="{201}", Chunks='{"a","big"}',
-              Reqs="AllReqsT({0}, %d, BadTerms \\cup PanicTerms)" % (1 if ctx.quick else 2))
+    # with another kind of value (error, runtime errors, http.ErrAbortHandler bare/wrapped, custom types)
+    jobs["gen-badcode"] = ("script", dict(Hdrs='{"h1"}', Codes="{201}", Chunks='{"a","big"}',
+                           Reqs="AllReqsT({0}, %d, BadTerms \\cup PanicTerms)" % (1 if ctx.quick else 2)))
+    # the chain composed without the time-out guard (Config.Timeout = 0, no route time-out): every way a script ends
+    jobs["gen-notimeout"] = ("script", dict(Hdrs='{"h1"}', Codes="{201}", Chunks='{"a","big"}', Cfgs=NT_CFG,
+                             Reqs="AllReqsT({0,17}, %d, Terms \\cup BadTerms \\cup PanicTerms)" % (1 if ctx.quick else 2)))
+    # MaxConns histories
+    for n in (1, 2, 3):
+        ops = (5 if n < 3 else 6) if ctx.quick else 7
+        jobs["gen-conns-%d" % n] = ("conns", dict(Rids="1..%d" % ops, MaxOps=ops, Reqs='{Req(0,<<>>,"finish"), Req(17,<<>>,"finish")}',
+                                    Cfgs="{[maxConns |-> %d, maxBytes |-> 16, timeout |-> TRUE]}" % n))
+    G = gens(ctx, jobs)
+    scr, cl, bad, nt = G["gen-script"], G["gen-cl"], G["gen-badcode"], G["gen-notimeout"]
+    scr = [json.loads(x) for x in scr]
+    cl = [json.loads(x) for x in cl]
     bad = [json.loads(x) for x in bad]
+    nt = [json.loads(x) for x in nt]
+    if any((m["runs"] and m["npre"] != len(m["steps"]) + 1) or m["cfg"]["timeout"] for m in nt):
+        raise core.Infra("the specification lets a request miss a deadline in a chain without time-out guard")
     ctx.notes["scenarios_invalid_status"] = len(bad)
     scr += bad
     ctx.notes["scenarios_script"] = len(scr)
     ctx.notes["scenarios_content_length"] = len(cl)
-    for m in scr + cl:
-        m.pop("boundary_unused", None)
+    ctx.notes["scenarios_no_timeout_guard"] = len(nt)
+    ctx.notes["scenarios_recover_alone"] = len([m for m in scr + cl + nt if m["sub"]])
     intime = [m for m in scr if m["npre"] == len(m["steps"]) + 1 and m["runs"]]
     # the api transport waits 2 s per deadline scenario: every one in thorough, every third in quick
     k = 0
@@ -122,6 +158,8 @@ def rest_cases(ctx):
             if ctx.quick and k % 3 != 0:
                 c["transports"] = ["rec", "http"]
         cases.append(c)
+    for m in nt:
+        cases.append({x: m[x] for x in m if x != "boundary"})
     # boundary: handler end and deadline close to each other; union of both outcomes, from the spec
     step = 1 if not ctx.quick else 4
     nb = 0
@@ -158,13 +196,9 @@ def rest_cases(ctx):
         c["n"] = 15000 if ctx.quick else 75000
         c["part"] = part
         cases.append(c)
-    # MaxConns histories
     nconn = 0
     for n in (1, 2, 3):
-        ops = (5 if n < 3 else 6) if ctx.quick else 7
-        h = gen(ctx, "gen-conns-%d" % n, "conns", Rids="1..%d" % ops, MaxOps=ops,
-                Reqs='{Req(0,<<>>,"finish"), Req(17,<<>>,"finish")}', Cfgs="{[maxConns |-> %d, maxBytes |-> 16]}" % n)
-        for x in h:
+        for x in G["gen-conns-%d" % n]:
             cases.append(json.loads(x))
             nconn += 1
     ctx.notes["histories_maxconns"] = nconn
@@ -208,12 +242,23 @@ def run_rest(ctx, cases, label="rest", race=False, shards=6):
     return guarded_replay(ctx, PKG, OVERLAY, "^TestVerifC02$", path, label, shards=shards, race=race, timeout=1500)
 
 
+def unexpected(ctx):
+    """disagreements that are not reproductions of an open known finding"""
+    return [d for d in ctx.disagreements if core.match_known(ctx.known, d) is None]
+
+
 def vacuity(ctx, label="rest"):
-    """every class of scenario must have been served and judged on every transport (DESIGN 8.7)"""
+    """every class of scenario must have been served and judged on every transport (DESIGN 8.7); evaluated only when
+    nothing new was found (a class whose every scenario reproduces an open known finding has no conforming observation)"""
     need = ["%s.%s" % (t, c) for t in ("rec", "http", "api") for c in ("intime", "deadline", "panic", "rejected", "conns")]
     need += ["rec.cancel", "rec.boundary", "http.boundary"]
+    # the chain without time-out guard, and the recover guard alone
+    need += ["%s.nt-%s" % (t, c) for t in ("rec", "http") for c in ("intime", "panic", "rejected")]
+    need += ["recover.intime", "recover.panic", "recover.nt-intime", "recover.nt-panic"]
+    known = {d.get("key", "") for d in ctx.disagreements if core.match_known(ctx.known, d) is not None}
+    need = [k for k in need if not any(x.startswith("C02:rest:%s:" % k.replace(".", ":")) for x in known)]
     missing = [k for k in need if ctx.counters.get(label + "." + k, 0) == 0]
-    if missing and not ctx.disagreements:
+    if missing and not unexpected(ctx):
         raise core.Infra("vacuous replay: no conforming observation for %s" % missing)
 
 
@@ -222,10 +267,11 @@ def run_rpc(ctx):
     cases = []
     for a in arr:
         cases += json.loads(a)
-    cases.sort(key=lambda m: (m["wait"] in ("sleep", "never"), m["beh"], m["late"], m["cause"], m["wait"]))
+    cases.sort(key=lambda m: (m["wait"] in ("sleep", "never"), m["chain"], m["beh"], m["pv"], m["late"], m["cause"], m["wait"]))
     ctx.notes["scenarios_rpc"] = len(cases)
+    ctx.notes["scenarios_rpc_panic_values_x_chains"] = len([m for m in cases if m["beh"] == "panic" and not m["late"]])
     # the panic clause under load: the in-time panicking handler, many concurrent calls
-    pan = [m for m in cases if m["beh"] == "panic" and not m["late"]]
+    pan = [m for m in cases if m["beh"] == "panic" and not m["late"] and m["pv"] == "string" and m["chain"] == "server"]
     if not pan:
         raise core.Infra("no in-time panic scenario among the generated RPC ones")
     st = dict(pan[0], mode="rpc-stress", n_local=(200000 if ctx.quick else 2000000), n_wire=(6400 if ctx.quick else 64000))
@@ -234,10 +280,44 @@ def run_rpc(ctx):
     ctx.samples += core.sample_of(cases, 1)
     ctx.replay(RPKG, ROVERLAY, "^TestVerifC02Rpc$", path, label="rpc", shards=1, timeout=600,
                env=dict(VERIF_C02_REPEAT=(3 if ctx.quick else 20)))
+    # every chain must have judged a panicking handler, and every kind of panic value (DESIGN 8.7)
+    chains = sorted({m["chain"] for m in cases})
+    pvs = sorted({m["pv"] for m in cases if m["pv"] != "none"})
+    missing = [k for k in ["chain.%s.panic" % c for c in chains] + ["pv." + v for v in pvs] + ["chain.%s.ok" % c for c in chains]
+               if ctx.counters.get("rpc." + k, 0) == 0]
+    if missing and not unexpected(ctx):
+        raise core.Infra("vacuous RPC replay: no conforming observation for %s" % missing)
 
 
 def run(ctx):
-    mc(ctx)
+    import threading
+    mc_err = []
+
+    def side():
+        try:
+            mc(ctx)
+        except BaseException as e:       # reported below, after the verdicts from the real code
+            mc_err.append(e)
+    mct = threading.Thread(target=side, daemon=True)
+    mct.start()
+    try:
+        real_code(ctx)
+    finally:
+        mct.join()
+    if mc_err and not unexpected(ctx):    # a harness problem never replaces a disagreement observed on the real code
+        raise mc_err[0]
+    if mc_err:
+        ctx.notes["model_checking_problem"] = str(mc_err[0])[:2000]
+    ctx.exhaustive = True
+    ctx.assumptions += [
+        "the breaker of the chain never sheds (mathx coin hook forced to 'do not drop'); adaptive shedding off (CpuThreshold=0)",
+        "script scenarios share one engine with MaxConns=10000; the MaxConns guard is exercised by the conns histories",
+        "a failing real-time observation on the started api.Server counts only if it reproduces 3 times and the handler/answer "
+        "timing shows the machine did not stall (otherwise exit 2)",
+    ]
+
+
+def real_code(ctx):
     cases = rest_cases(ctx)
     stress = [c for c in cases if c.get("mode") == "stress"]
     cases = [c for c in cases if c.get("mode") != "stress"]
@@ -248,13 +328,6 @@ def run(ctx):
         b = [c for c in cases if c.get("mode") == "boundary"]
         run_rest(ctx, b, label="rest-race", race=True, shards=4)
     run_rpc(ctx)
-    ctx.exhaustive = True
-    ctx.assumptions += [
-        "the breaker of the chain never sheds (mathx coin hook forced to 'do not drop'); adaptive shedding off (CpuThreshold=0)",
-        "script scenarios share one engine with MaxConns=10000; the MaxConns guard is exercised by the conns histories",
-        "a failing real-time observation on the started api.Server counts only if it reproduces 3 times and the handler/answer "
-        "timing shows the machine did not stall (otherwise exit 2)",
-    ]
 
 
 def replay(ctx, rp):
